@@ -8,6 +8,28 @@ ALL = [f"C{i:02d}" for i in range(1, 21)]
 
 # id -> (technique, level text, level note, design ref)
 CHECKS = {
+    "C18": (
+        "bounded exhaustive enumeration with a deviation bound on injected invalid operands (0 and 1, each operand position "
+        "in turn) over conversion routes, all ufuncs x call forms, methods with out=, in-place equivalence chains, item "
+        "assignment, the array-function catalogue and Unit arithmetic, on operands that are views; before/after snapshots "
+        "of every operand and parent",
+        "Every call is made on freshly built operands that are strided or transposed views of parent arrays, with the "
+        "numbers, dtype, shape, unit and name of every operand and the numbers/unit of every parent snapshotted before and "
+        "after. 5 copying and 3 in-place conversion routes x 8 target kinds (valid string/Unit, same, equivalence target, "
+        "wrong dimension, unknown and malformed string, offset unit) plus 19 argument-free copying calls and 9 in-place ones "
+        "(unknown unit system/equivalence, bad keyword, uncovered request) x 7 dtypes x 5 operand forms x 3 source units; "
+        "every ufunc of unyt's table in call / out= / wrong-shaped out / integer out / out-aliases-an-operand / in-place-"
+        "operator form x 7 second-operand kinds; 26 methods and functions with out= x 10 unit combinations incl. refused "
+        "ones; every in-place equivalence chain (9 equivalences x all dimension pairs of an 11-dimension alphabet x default "
+        "and bad keywords x 3 dtypes); 5 index forms x 9 assigned-value kinds; all catalogue templates valid and with each "
+        "quantity operand made incommensurable; 21 unary and 7 binary Unit operations over 18 units. Copying calls leave "
+        "every input bit-identical (dtype included) whether they return or raise; a raising in-place call leaves the numbers "
+        "and unit of its target and parent; a succeeding one changes only its target (parent bytes outside the view survive) "
+        "to the copying call's numbers and unit.",
+        "Deviation bound completed: 1 invalid operand per call. Faults inside NumPy are not injected. dtype relabelling of an "
+        "integer target that preserves its numbers is not counted as a change of numbers or unit.",
+        "DESIGN.md section 6 C18",
+    ),
     "C09": (
         "exhaustive product enumeration equivalence x keyword set x ordered member-dimension pair x input unit x target unit "
         "x dtype x shape x entry point on the real code, against closed-form formulas on SI magnitudes; algebraic laws "
